@@ -1,8 +1,15 @@
 import Yaql.Drv.Util
 import Yaql.Model.EvalOrder
-/-! Driver for C11: predicted probe traces of expression shapes. -/
+import Yaql.Model.PerElem
+/-! Driver for C11: predicted probe traces of expression shapes, and of pipelines of streaming operators with
+per-element lambdas.
+pipe  := {"src":{"n":number of elements,"x":X of the source expression},"stages":[stage..]}
+stage := {"op":"select"|"filter"|"takeWhile"|"skipWhile"|"selectMany"|"search"|"each"|"accumulate"|"take"|"skip"|"pass"|
+          "zip"|"concat"|"join", "eager":[X of the eagerly evaluated arguments..], "bodies":[X per input element..],
+          "flags":[bool..], "counts":[n..], "nout":n, "k":n, "seeded":bool, "other":pipe (the secondary collection),
+          "preds":[[X..]..], "pflags":[[bool..]..], "sels":[[X..]..]} -/
 namespace Yaql.Drv.C11
-open Lean Yaql.Drv Yaql.EvalOrder
+open Lean Yaql.Drv Yaql.EvalOrder Yaql.PerElem
 
 partial def decX (j : Json) : X :=
   let kids (k : String) := (jarr j k).map decX
@@ -20,8 +27,46 @@ partial def decX (j : Json) : X :=
   | "coalesce" => .coalesce (kids "as") (flags "nulls")
   | _ => .leaf
 
-/-- `{"xs":[X...]}` -> `{"traces":[[ids]...]}` -/
+def xsJ (j : Json) (k : String) : List X := (jarr j k).map decX
+def xssJ (j : Json) (k : String) : List (List X) := (jarr j k).map fun a => (asArr a).map decX
+def flagsJ (j : Json) (k : String) : List Bool := (jarr j k).map asBool
+def flagssJ (j : Json) (k : String) : List (List Bool) := (jarr j k).map fun a => (asArr a).map asBool
+
+/-- a pipeline: the probes fired while the expression is built (eager arguments, in source order) and the
+    lazy stream it denotes -/
+partial def evalPipe (j : Json) : List Nat × PerElem.Strm :=
+  let s := jget j "src"
+  let go (acc : List Nat × PerElem.Strm) (st : Json) : List Nat × PerElem.Strm :=
+    let other : List Nat × PerElem.Strm :=
+      if jhas st "other" && !jisNull (jget st "other") then evalPipe (jget st "other") else ([], {})
+    let eager := other.1 ++ ((xsJ st "eager").map trace).flatten
+    let op : Option Op :=
+      match jstr st "op" with
+      | "select" => some (.select (xsJ st "bodies"))
+      | "filter" => some (.filter (xsJ st "bodies") (flagsJ st "flags"))
+      | "takeWhile" => some (.takeWhile (xsJ st "bodies") (flagsJ st "flags"))
+      | "skipWhile" => some (.skipWhile (xsJ st "bodies") (flagsJ st "flags"))
+      | "selectMany" => some (.selectMany (xsJ st "bodies") ((jarr st "counts").map asNat))
+      | "search" => some (.search (xsJ st "bodies") (flagsJ st "flags"))
+      | "each" => some (.each (xsJ st "bodies") (jnat st "nout"))
+      | "accumulate" => some (.accumulate (xsJ st "bodies") (jbool st "seeded"))
+      | "take" => some (.take (jnat st "k"))
+      | "skip" => some (.skip (jnat st "k"))
+      | "pass" => some .pass
+      | "zip" => some (.zip other.2)
+      | "concat" => some (.concat other.2)
+      | "join" => some (.join other.2 (xssJ st "preds") (flagssJ st "pflags") (xssJ st "sels"))
+      | _ => none
+    match op with
+    | some o => (acc.1 ++ eager, runOn (stageOf o) acc.2)
+    | none => (acc.1 ++ [0], acc.2)         -- an unknown operator shows up as the impossible probe 0
+  (jarr j "stages").foldl go (trace (decX (jget s "x")), listSrc (jnat s "n"))
+
+/-- `{"xs":[X...],"pipes":[pipe...]}` -> `{"traces":[[ids]...],"plogs":[[ids]...]}` -/
 def handle (req : Json) : Json :=
-  jo [("traces", jl ((jarr req "xs").map fun x => jl ((trace (decX x)).map jn)))]
+  jo [("traces", jl ((jarr req "xs").map fun x => jl ((trace (decX x)).map jn))),
+      ("plogs", jl ((if jhas req "pipes" then jarr req "pipes" else []).map fun p =>
+        let r := evalPipe p
+        jl ((r.1 ++ r.2.log).map jn)))]
 
 end Yaql.Drv.C11
